@@ -265,6 +265,17 @@ def check_support_change(idx: Index, rep: Report, c: ClassInfo):
         return
     bld = idx.find_method(c, "build_circuit")
     skipping = "get_exponentiated_qubit_operator_circuit" in full(bld.node)
+    if skipping:
+        # the exponentiation helper drops tiny coefficients - unless the term is variational
+        g = idx.function("tangelo/toolboxes/ansatz_generator/ansatz_utils.py::get_exponentiated_qubit_operator_circuit")
+        guards = [n for n in ast.walk(g.node) if isinstance(n, ast.If) and any("exp_pauliword_to_gates" in norm(x) for x in n.body) and "coef" in norm(n.test)]
+        always_emitted = bool(guards) and all(isinstance(n.test, ast.BoolOp) and isinstance(n.test.op, ast.Or) and "variational" in [norm(v) for v in n.test.values] for n in guards)
+        if not guards:
+            always_emitted = True
+        var_calls = [x for x in ast.walk(bld.node) if isinstance(x, ast.Call) and norm(x.func) == "get_exponentiated_qubit_operator_circuit"
+                     and any(k.arg == "time" and "var_params" in norm(k.value) for k in x.keywords)]
+        flagged = all(any(k.arg == "variational" and norm(k.value) == "True" for k in x.keywords) for x in var_calls)
+        skipping = not (always_emitted and flagged and var_calls)
     rep.decide(not skipping, rule, upd, upd.node, text=f"{c.name}: fixed gate layout or rebuild on support change",
                what="update either rebuilds when the set of emitted words changes or the build path never skips gates depending on coefficients",
                reason=f"{c.name}.build_circuit emits gates through get_exponentiated_qubit_operator_circuit, which drops terms with |coef| <= 1e-10, and "
